@@ -398,7 +398,8 @@ impl<'a> From<&'a [Pair]> for Value {
 
         for (k, v) in value {
             if let Some(k) = k.as_str() {
-                newd.insert(FastStr::new(k), v.clone());
+                // a repeated name keeps its first value, as the lookups on the parsed object do
+                newd.entry(FastStr::new(k)).or_insert_with(|| v.clone());
             }
         }
 
